@@ -83,11 +83,14 @@ pub struct ServerConfig {
     pub fail_after_chunks: Option<(usize, u64)>,
     /// the optional `type` line is sent with the first chunk (offset 0) only
     pub mime_only_in_first_chunk: bool,
+    /// message text of the ACK 5 a picture command answers with when it is "unknown" (None: MPD's
+    /// own wording `unknown command "<name>"`)
+    pub unknown_command_wording: Option<String>,
 }
 
 impl Default for ServerConfig {
     fn default() -> Self {
-        ServerConfig { password: None, password_ack_code: 3, embedded: PicSource::Empty, cover: PicSource::Empty, binary_limit: 8192, chunk_pattern: vec![], per_uri: vec![], fail_after_chunks: None, mime_only_in_first_chunk: false }
+        ServerConfig { password: None, password_ack_code: 3, embedded: PicSource::Empty, cover: PicSource::Empty, binary_limit: 8192, chunk_pattern: vec![], per_uri: vec![], fail_after_chunks: None, mime_only_in_first_chunk: false, unknown_command_wording: None }
     }
 }
 
@@ -109,6 +112,8 @@ pub struct SimServer {
     pub violations: Vec<String>,
     pub dead: bool,
     pub chunks_served: usize,
+    /// `count …` commands executed so far (their replies carry the serial number)
+    pub counted: usize,
 }
 
 fn ack(out: &mut Vec<u8>, code: u64, index: usize, cmd: &str, msg: &str) {
@@ -133,6 +138,7 @@ impl SimServer {
             violations: Vec::new(),
             dead: false,
             chunks_served: 0,
+            counted: 0,
         }
     }
 
@@ -351,7 +357,7 @@ impl SimServer {
                 match src {
                     PicSource::Empty => true,
                     PicSource::Ack(code) => {
-                        let msg = if code == 5 { format!("unknown command \"{name}\"") } else { "No file exists".to_string() };
+                        let msg = if code == 5 { self.cfg.unknown_command_wording.clone().unwrap_or_else(|| format!("unknown command \"{name}\"")) } else { "No file exists".to_string() };
                         ack(out, code, index, if code == 5 { "" } else { &name }, &msg);
                         false
                     }
@@ -403,6 +409,15 @@ impl SimServer {
             n if n.starts_with("fail") => {
                 ack(out, 50, index, &name, &format!("No such thing: {}", String::from_utf8_lossy(line)));
                 false
+            }
+            "count" => {
+                // a command with a side effect: every execution answers with its own serial
+                // number, so two byte-identical requests have distinguishable replies
+                self.counted += 1;
+                out.extend_from_slice(b"echo: ");
+                out.extend_from_slice(line);
+                out.extend_from_slice(format!("\nserial: {}\n", self.counted).as_bytes());
+                true
             }
             _ => {
                 // echo reply identifying the request line
